@@ -146,8 +146,10 @@ func Corpus() *Program {
 	msg("EmbO2", []string{"ExChoice"},
 		fld("ExA", 1, KInt64, oneof("ExChoice")), fld("ExB", 2, KMessage, ref("Leaf"), oneof("ExChoice")))
 	// three oneof groups promoted from two by-value embedded messages
-	msg("EmbedOneof", nil,
+	msg("EmbedOneof", []string{"MyExChoiceToo"},
 		fld("Top", 1, KString),
+		// a oneof of the host whose name contains the name of a oneof promoted from an embedded message
+		fld("HostA", 5, KString, oneof("MyExChoiceToo")), fld("HostB", 6, KInt64, oneof("MyExChoiceToo")),
 		fld("EvAMid", 3, KString), // sorts between the promoted branches EvA and EvB when sort is on
 		fld("EmbO", 2, KMessage, ref("EmbO"), embed(), nonNull()),
 		fld("EmbO2", 4, KMessage, ref("EmbO2"), embed(), nonNull()))
